@@ -29,7 +29,8 @@ MANIFEST = {
             "schedule dependent) is reported as KNOWN-FINDING. Second stream (harness/explore_util.py): 860 small cyclic "
             "programs and the must-reject ones (~130) of 300 programs with loops through negation under 3 orders each, engine "
             "outcome vs Sem with the numbers computed by enumeration of the ground formula (candidates confirmed with the full "
-            "pipeline before they are reported); pinned corpus corpus/C03/schedules.json under all schedules.",
+            "pipeline before they are reported); pinned corpus corpus/C03/schedules.json under all schedules. "
+            "First-order sub-phase (harness/groundfo_util.py): programs with variables against ProbLogModel/GroundFO.lean, exact correspondence under the recorded schedule / history; the semantic statement (CorrectFO) is checked per program by Drivers.GroundFOCheck under the recorded and an arbitrary schedule, and proved for the model in partial-correctness form (C01GroundFOFull: every schedule and history, against Sem.wfm of the Herbrand instantiation, under the decidable hypotheses SpecOK which the driver decides per program; termination of the model is not proved).",
     "design_ref": "DESIGN.md §6 C03, §7",
 }
 
@@ -95,6 +96,9 @@ def run(ctx):
     # recorded schedule) and schedule independence is a theorem (C03_ground_schedule_independent)
     import ground_util
     gerr = ground_util.guarded(ctx, "sched", 200, 6000)
+    import groundfo_util           # the same on programs WITH variables (first-order model, exact correspondence)
+    gerr2 = groundfo_util.guarded(ctx, "sched", 150, 5000)
+    gerr = gerr or gerr2
     rc = cfgprop.run(ctx, MODULE, THEOREMS, variants, nq=50, nt=700, level="other", gen_kwargs={"disjunction": True},
                      explanation="Schedules are explored (seeded), not proved, on general programs; every schedule is compared "
                                  "with the Lean specification. On ground programs without recursion the engine is modelled "
